@@ -30,6 +30,7 @@ def main():
             d = os.path.join(V, "seeded", n)
             sh("git -C %s checkout -q --detach %s && git -C %s checkout -q -- . && git -C %s clean -qfd" % (wt, head, wt, wt))
             r = sh("git -C %s apply %s/patch.diff" % (wt, d))
+            if r.returncode != 0: r = sh("cd %s && patch -p1 -F3 --no-backup-if-mismatch < %s/patch.diff" % (wt, d))
             res = {"tier": tier, "repo_head": head, "at": time.strftime("%Y-%m-%d %H:%M")}
             if r.returncode != 0:
                 res.update(applies=False, note="patch does not apply on /repo HEAD (a fix: commit rewrote the mutated lines): " + r.stdout.strip()[:200])
